@@ -56,7 +56,8 @@ add("C01", "exploration", "DESIGN.md §2 C01",
     "contain a climbing token after the protocol's single decoding must be refused. 16k (quick) / 300k (thorough) "
     "structured cases per run plus raw byte lines; absence of an escape is not proved.",
     "CPython audit events stand for OS opens (no C extension opens files here); stat-only probes are covered by the "
-    "two-world comparison only; trees contain no symlink leaving the root")
+    "two-world comparison and, for paths outside the sandbox directory, by a third run in which os.stat / os.lstat say that "
+    "what the server asked about and did not find exists; trees contain no symlink leaving the root")
 
 add("C04", "exploration", "DESIGN.md §2 C04",
     "Hypothesis-generated files (content kind x block-boundary sizes x hostile names x extensions, real directory and "
